@@ -42,6 +42,12 @@ func addHeaders(r *http.Request, cfg config.Proxy, stripPath string) error {
 		return errors.New("cannot parse " + r.RemoteAddr)
 	}
 
+	// The reverse proxy drops the headers the client lists in its
+	// Connection header as hop-by-hop headers after this function has
+	// run. A client must not be able to remove the headers set here
+	// that way.
+	keepForwardingHeaders(r.Header, cfg)
+
 	// set configurable ClientIPHeader
 	// X-Real-Ip is set later and X-Forwarded-For is set
 	// by the Go HTTP reverse proxy.
@@ -135,6 +141,41 @@ func addHeaders(r *http.Request, cfg config.Proxy, stripPath string) error {
 	}
 
 	return nil
+}
+
+// keepForwardingHeaders removes the names of the headers which addHeaders
+// provides from the Connection header of the request.
+func keepForwardingHeaders(h http.Header, cfg config.Proxy) {
+	conn := h["Connection"]
+	if len(conn) == 0 {
+		return
+	}
+	provided := func(name string) bool {
+		switch name {
+		case "X-Forwarded-For", "X-Real-Ip", "Forwarded", "X-Forwarded-Proto", "X-Forwarded-Port", "X-Forwarded-Host", "X-Forwarded-Prefix":
+			return true
+		}
+		return name != "" && (name == http.CanonicalHeaderKey(cfg.ClientIPHeader) || name == http.CanonicalHeaderKey(cfg.TLSHeader))
+	}
+	var vals []string
+	for _, v := range conn {
+		var toks []string
+		for _, tok := range strings.Split(v, ",") {
+			tok = strings.TrimSpace(tok)
+			if tok == "" || provided(http.CanonicalHeaderKey(tok)) {
+				continue
+			}
+			toks = append(toks, tok)
+		}
+		if len(toks) > 0 {
+			vals = append(vals, strings.Join(toks, ", "))
+		}
+	}
+	if len(vals) == 0 {
+		h.Del("Connection")
+		return
+	}
+	h["Connection"] = vals
 }
 
 var tlsver = map[uint16]string{
